@@ -75,3 +75,6 @@ pub use crate::core::{txtpp, Config, Mode, Txtpp, Verbosity};
 pub mod error;
 mod fs;
 pub use crate::fs::TXTPP_FILE;
+
+#[cfg(feature = "verif")]
+pub mod verif;
